@@ -4,6 +4,24 @@ import json, os, subprocess
 HERE = os.path.dirname(os.path.abspath(__file__))
 
 CHECKS = {
+ "C04": dict(cat="exploration", tech="runtime monitoring / differential twins: `run` vs `compile`+`execute` of the same program; stdout, exit class and the instruction streams of every loaded function (H-DUMP hook) compared",
+   text="Corpus (examples + programs embedded in the tests), generated multi-module projects (2-4 modules, both import forms, sub-directories), generated control-flow programs and, exhaustively, all strings of length 0-4 over the 10 format-special symbols (quote, backslash, space, TAB, LF, CR, n, r, t, e-acute; length 4 sampled in quick) in three roles (print operand, map key, assert operand) run through both pipelines in separate directories; compared: stdout, exit/failure class, and per (file, function) opcodes and argument lists (make_function captures as a multiset). Failing string batches are bisected to single literals.",
+   note="Trusted: H-DUMP hook; programs that do not compile are outside the domain (values ending in a backslash have no literal and are verified rejected); outputs containing addresses / hash-ordered maps are compared modulo that freedom.", ref="§3 C04"),
+ "C18": dict(cat="exploration", tech="runtime monitoring / differential twins: `run` vs raw-text compile -> transpile -> execute; plus exhaustive opcode-table and argument-shape checks of the transpiler",
+   text="Same oracle as C04 with pipeline B = compile --output-format raw-text, rename, transpile, execute (single-module programs), the same exhaustive string set, extra Unicode white-space values, and the complete opcode table: every instruction name x 4 argument forms and 7 argument-list shapes is transpiled and the loaded opcode/arguments (H-DUMP) compared with what was written.",
+   note="Trusted: H-DUMP hook; `nop` is refused by the transpiler as deprecated (the compiler never emits it).", ref="§3 C18"),
+ "C05": dict(cat="exploration", tech="runtime monitoring: operator x kind^2 x boundary^2 matrix + seeded random operands, printed value and run-time kind (H-KIND) compared with an exact numeric model (Python integers / IEEE doubles)",
+   text="Every arithmetic, comparison, bitwise and shift operator, unary minus and `!` over all 16 kind pairs and all pairs from per-kind boundary sets (379k cases; quick runs a deterministic stratified slice plus random operands, thorough the whole matrix) with operands reaching the operator through variables, parameters and list elements; expected-value cases are batched 100 per program with operands echoed and checked, expected-failure cases run alone. A printed value where the model says failure, a wrong value or a wrong kind is a violation; any stop counts as a failure.",
+   note="Trusted: models/numeric.py (promotion table and exactness rules taken from the statement); overflow delivered as a Rust panic counts as a stop here (it is C17's subject). evaluations counts compared cases (up to 100 share one process).", ref="§3 C05"),
+ "C06": dict(cat="exploration", tech="runtime monitoring / differential twins inside one implementation: folded rendering (literals) vs unfolded rendering (same tree over variables); value, run-time kind, typeof text and failure compared, numeric model as referee",
+   text="A catalogue of 664 pinned cases, the one-operator matrix (10 operators x all ordered pairs of 154 literal atoms incl. every spelling and negation), and depth-3 trees (sampled in quick, enumerated over a reduced leaf set in thorough) in plain / parenthesised / list-element contexts: the compiler must reject the folded form exactly when the unfolded form fails at run time, and otherwise value (floats by bits), kind and typeof must agree. Deviating trees are localised to their smallest deviating sub-tree.",
+   note="Trusted: H-KIND hook; the numeric model only names the wrong side in the witness.", ref="§3 C06"),
+ "C11": dict(cat="exploration", tech="runtime monitoring: enumerated import DAG projects run in memory and from files, exact stdout compared with a module-initialisation model, plus the module-cache hit/miss events of the H-MOD hook",
+   text="All DAGs on <= 3 modules (<= 4 in thorough, 5 sampled) x import form per edge x import placement x directory placement (thorough: path spellings) are generated; every module prints begin/end of its initialisation, exports a counter cell and bump/peek functions and keeps a hidden variable; the entry drives every access path. Oracle: depth-first initialisation exactly once per module at the first executed import, shared state across importers, and exactly one cache `miss` per module with every later import a `hit`; negative twins (hidden member read, `m.x = ...`, `m.x += ...`) must be rejected at compile time. Each project runs through `run` and `compile`+`execute`.",
+   note="Trusted: models/modules.py, H-MOD events; names imported with `import x from m` are local copies by the repository's own test, so writes to them are accepted and `m.x` is asserted unchanged.", ref="§3 C11"),
+ "C15": dict(cat="exploration", tech="runtime monitoring: expression trees over logging leaf calls, exact log order/multiplicity and final value compared with a left-to-right, exactly-once, short-circuit model",
+   text="Every shape of depth <= 3 over the reduced operator set (3556 shapes, every valuation), a 498-case arity catalogue (calls and method calls with 0-4 arguments) and seeded depth-4 trees in 8 statement contexts with recursive helpers: leaves log when evaluated; inner nodes are binary operators, calls, method calls with logging receivers, list/map literals, indexing, &&, ||, `or`. The printed log must equal the model's.",
+   note="Trusted: models/evalorder.py. Division and overflow are avoided so that no run fails.", ref="§3 C15"),
  "C07": dict(cat="exploration", tech="runtime monitoring: generated closure worlds + call/assignment histories, printed observations after every step compared with a cell model (lexical scoping, one cell per variable, fresh cells per factory call)",
    text="A 47-case catalogue (readers, modify-writers, shadowers, factories, closures returned / stored in lists / passed as arguments / created in blocks and loops, nesting depth <= 3, is_closure, the pinned cases of every defect found) and seeded random histories (<= 12 steps) are executed; after every step all observable variables and reader results are printed and compared line by line with the model, which parses and interprets the same source text.",
    note="Trusted: models/closures.py (its lexical-scoping interpreter). Avoidance rules of the random generator switch on only while the corresponding pinned finding is listed in known_findings.json.", ref="§3 C07"),
